@@ -244,44 +244,62 @@ static void case_pose(vh::Ctx & c, vh::Rng & r)
 template<class S>
 static void case_ls(vh::Ctx & c, vh::Rng & r, bool is_float)
 {
+  // a short HISTORY on one solver object: the covariance must describe the problem just solved,
+  // whatever was solved (and by which path) before
   const LD eps = std::numeric_limits<S>::epsilon();
-  int m = (int)r.range(1, 8), n = (int)r.range(m, r.coin() ? m + 10 : 200);
-  LD kap = m == 1 ? 1 : (LD)r.logu(1.0, is_float ? 30.0 : 999.0), sc = r.coin(0.3) ? 1.0 : r.logu(1e-4, 1e4);
-  MatL A0(n, m); for (int i = 0; i < n; ++i) {for (int j = 0; j < m; ++j) {A0(i, j) = r.normal();}}
-  Eigen::JacobiSVD<MatL> sv0(A0, Eigen::ComputeThinU | Eigen::ComputeThinV);
-  VecL s(m); for (int i = 0; i < m; ++i) {s(i) = sc * (i == 0 ? 1 : i == m - 1 ? 1 / kap : (LD)r.logu((double)(1 / kap), 1.0));}
-  MatL J = sv0.matrixU() * s.asDiagonal() * sv0.matrixV().transpose();
+  const int m = (int)r.range(1, 8);
+  const int nprob = (int)r.range(1, 4);
   romea::core::LeastSquares<S> ls(m);
-  ls.setDataSize(n);
-  MatL Jr(n, m);
-  for (int i = 0; i < n; ++i) {
-    for (int j = 0; j < m; ++j) {ls.getJ()(i, j) = (S)J(i, j); Jr(i, j) = (LD)ls.getJ()(i, j);}
-    ls.getY()(i) = (S)r.normal();
-  }
-  VecL a(m);
-  typename romea::core::LeastSquares<S>::Matrix Ad = romea::core::LeastSquares<S>::Matrix::Zero(m, m);
-  bool identity = r.coin(0.25);
-  for (int i = 0; i < m; ++i) {Ad(i, i) = identity ? S(1) : (S)r.logu(1e-3, 1e3); a(i) = (LD)Ad(i, i);}
-  ls.setPreconditionner(Ad);
-  bool svd = r.coin();
-  if (svd) {ls.estimateUsingSVD();} else {ls.estimateUsingCholeskyDecomposition();}
-  S var = (S)r.logu(1e-6, 1e3);
-  MatL rep = ls.computeEstimateCovariance(var).template cast<LD>();
-  MatL JtJ = Jr.transpose() * Jr;
-  Eigen::JacobiSVD<MatL> sv(Jr);
-  LD cond = (sv.singularValues()(0) / sv.singularValues()(m - 1)); cond *= cond;
-  MatL inv = JtJ.inverse();
-  MatL expct = (LD)var * a.asDiagonal() * inv * a.asDiagonal();
   c.cat(is_float ? "c_ls_covariance_float" : "c_ls_covariance_double");
-  c.distinct(vh::hash_doubles({3.0, (double)m, (double)n, (double)kap, (double)sc, (double)J(0, 0)}), !identity);
-  auto params = [&]() {return vh::Params{{"m", (double)m}, {"n", (double)n}, {"cond_JtJ", (double)cond}, {"is_float", (double)is_float}, {"svd_path", (double)svd}};};
-  c.sample("c_ls_covariance", [&]() {return vh::J().s("part", "c").f("m", m).f("n", n).f("cond_JtJ", cond).f("scale", sc).boolean("svd_path", svd).f("variance", var).raw("A_diag", vh::jvec(a)).str();});
-  if (64 * eps * cond >= 1e-2L) {c.skip("c:vacuous_64eps_cond"); return;}
-  // rounding: the explicit inverse carries eps cond relative error; scaled entry-wise by a_i a_j
-  LD tol = 64 * eps * cond * (LD)var * (a.asDiagonal() * inv.cwiseAbs() * a.asDiagonal()).norm();
-  c.expect_le("c.covariance_is_v_A_invJtJ_At", (rep - expct).norm(), tol, "ls_covariance_mismatch", params, [&]() {
-      return vh::J().s("part", "c").raw("reported", vh::jmat(rep)).raw("expected", vh::jmat(expct)).f("cond", cond).str();
-    });
+  std::string trace;
+  uint64_t h = vh::hash_doubles({3.0, (double)m, (double)nprob});
+  bool any_nonidentity = false;
+  for (int k = 0; k < nprob; ++k) {
+    int n = (int)r.range(m, r.coin() ? m + 10 : 200);
+    LD kap = m == 1 ? 1 : (LD)r.logu(1.0, is_float ? 30.0 : 999.0), sc = r.coin(0.3) ? 1.0 : r.logu(1e-4, 1e4);
+    MatL A0(n, m); for (int i = 0; i < n; ++i) {for (int j = 0; j < m; ++j) {A0(i, j) = r.normal();}}
+    Eigen::JacobiSVD<MatL> sv0(A0, Eigen::ComputeThinU | Eigen::ComputeThinV);
+    VecL s(m); for (int i = 0; i < m; ++i) {s(i) = sc * (i == 0 ? 1 : i == m - 1 ? 1 / kap : (LD)r.logu((double)(1 / kap), 1.0));}
+    MatL J = sv0.matrixU() * s.asDiagonal() * sv0.matrixV().transpose();
+    int path = (int)r.range(0, 2);          // 0 svd, 1 cholesky, 2 weighted
+    ls.setDataSize(n);
+    MatL Jr(n, m); VecL w(n);
+    for (int i = 0; i < n; ++i) {
+      ls.getW()(i) = path == 2 ? (S)r.logu(0.1, 10.0) : S(1); w(i) = (LD)ls.getW()(i);
+      for (int j = 0; j < m; ++j) {ls.getJ()(i, j) = (S)J(i, j); Jr(i, j) = (LD)ls.getJ()(i, j);}
+      ls.getY()(i) = (S)r.normal();
+    }
+    for (int i = n; i < ls.getJ().rows(); ++i) {for (int j = 0; j < m; ++j) {ls.getJ()(i, j) = (S)1e30;} ls.getY()(i) = (S)1e30; ls.getW()(i) = (S)1e30;}
+    VecL a(m);
+    typename romea::core::LeastSquares<S>::Matrix Ad = romea::core::LeastSquares<S>::Matrix::Zero(m, m);
+    bool identity = r.coin(0.25);
+    any_nonidentity = any_nonidentity || !identity;
+    for (int i = 0; i < m; ++i) {Ad(i, i) = identity ? S(1) : (S)r.logu(1e-3, 1e3); a(i) = (LD)Ad(i, i);}
+    ls.setPreconditionner(Ad);
+    if (path == 0) {ls.estimateUsingSVD();} else if (path == 1) {ls.estimateUsingCholeskyDecomposition();} else {ls.weightedEstimate();}
+    trace += std::string(k ? "," : "") + (path == 0 ? "svd" : path == 1 ? "cholesky" : "weighted") + ":" + std::to_string(n);
+    h = vh::hash_add(h, (double)n); h = vh::hash_add(h, (double)J(0, 0));
+    S var = (S)r.logu(1e-6, 1e3);
+    MatL rep = ls.computeEstimateCovariance(var).template cast<LD>();
+    if (r.coin(0.3)) {rep = ls.computeEstimateCovariance(var).template cast<LD>();}     // asking twice changes nothing
+    if (path == 2) {Jr = w.asDiagonal() * Jr;}
+    MatL JtJ = Jr.transpose() * Jr;
+    Eigen::JacobiSVD<MatL> sv(Jr);
+    LD cond = (sv.singularValues()(0) / sv.singularValues()(m - 1)); cond *= cond;
+    MatL inv = JtJ.inverse();
+    MatL expct = (LD)var * a.asDiagonal() * inv * a.asDiagonal();
+    auto params = [&]() {return vh::Params{{"m", (double)m}, {"n", (double)n}, {"cond_JtJ", (double)cond}, {"is_float", (double)is_float}, {"path", (double)path}, {"step", (double)k}};};
+    if (64 * eps * cond >= 1e-2L) {c.skip("c:vacuous_64eps_cond"); continue;}
+    c.cat(k == 0 ? "c_first_problem_on_solver" : "c_later_problem_on_reused_solver");
+    c.cat(path == 0 ? "c_path_svd" : path == 1 ? "c_path_cholesky" : "c_path_weighted");
+    // rounding: the explicit inverse carries eps cond relative error; scaled entry-wise by a_i a_j
+    LD tol = 64 * eps * cond * (LD)var * (a.asDiagonal() * inv.cwiseAbs() * a.asDiagonal()).norm();
+    c.expect_le("c.covariance_is_v_A_invJtJ_At", (rep - expct).norm(), tol, "ls_covariance_mismatch", params, [&]() {
+        return vh::J().s("part", "c").s("history(path:rows)", trace).raw("reported", vh::jmat(rep)).raw("expected", vh::jmat(expct)).f("cond", cond).str();
+      });
+  }
+  c.distinct(h, any_nonidentity);
+  c.sample("c_ls_covariance", [&]() {return vh::J().s("part", "c").f("m", m).boolean("float", is_float).s("history(path:rows)", trace).str();});
 }
 
 static void one_case(vh::Ctx & c, uint64_t idx)
